@@ -460,6 +460,34 @@ def _self_attr(node):
     return None
 
 
+_PURE_WRITES = {"append", "extend", "insert", "add", "update", "clear", "sort", "reverse", "appendleft", "discard", "remove",
+                "add_node", "add_nodes_from", "add_edge", "add_edges_from", "remove_node", "remove_nodes_from", "remove_edge", "remove_edges_from"}
+
+
+def _attrs_read(methods):
+    """Attributes `self.x` whose value is used in one of the methods: every load of self.x that is not just the receiver of a
+    call that only writes (self.x.append(v)) or the target of a store (self.x[k] = v)."""
+    read = set()
+    for fi in methods:
+        write_only = set()
+        for sub in ast.walk(fi.node):
+            if isinstance(sub, ast.Call) and isinstance(sub.func, ast.Attribute) and sub.func.attr in _PURE_WRITES:
+                r = sub.func.value
+                if isinstance(r, ast.Attribute) and isinstance(r.value, ast.Name) and r.value.id == "self":
+                    write_only.add(id(r))
+            if isinstance(sub, (ast.Assign, ast.AugAssign, ast.Delete)):
+                for t in (sub.targets if isinstance(sub, (ast.Assign, ast.Delete)) else [sub.target]):
+                    if isinstance(t, ast.Subscript) and isinstance(t.value, ast.Attribute) and isinstance(t.value.value, ast.Name) and t.value.value.id == "self" \
+                            and not isinstance(sub, ast.AugAssign):
+                        write_only.add(id(t.value))
+        for sub in ast.walk(fi.node):
+            if isinstance(sub, ast.Attribute) and isinstance(sub.value, ast.Name) and sub.value.id == "self" and isinstance(sub.ctx, ast.Load) and id(sub) not in write_only:
+                read.add(sub.attr)
+            if isinstance(sub, ast.AugAssign) and isinstance(sub.target, ast.Attribute) and isinstance(sub.target.value, ast.Name) and sub.target.value.id == "self":
+                pass      # a counter that is only ever counted up is not read; a read elsewhere makes it state
+    return read
+
+
 def det_level_state(repo, tier="quick"):
     """resolve() is called once per level on the same MoleculeResolver.  What one level leaves for the next are the two graphs
     (both re-assigned by resolve()) and the level counter.  A container attribute that is created in the constructor, filled
@@ -502,8 +530,13 @@ def det_level_state(repo, tier="quick"):
                 if a:
                     mutated.setdefault(a, (fi, sub))
     obs = []
+    read = _attrs_read(per_level)
     for a in sorted(mutated):
         fi, site = mutated[a]
+        if a not in read:
+            obs.append(ob_ok(oid, fi, site, construct="self.%s is filled in place and never read while a level is resolved" % a, instance=a,
+                             reason="a record that nothing of the resolution depends on"))
+            continue
         if a in replaced:
             obs.append(ob_ok(oid, fi, site, construct="self.%s is filled in place and replaced while a level is resolved" % a, instance=a,
                              reason="the next level starts from a new object"))
@@ -786,6 +819,7 @@ def det_sampler_state(repo, tier="quick"):
     need(methods, "anchor vanished: MoleculeSampler.sample not found")
     obs = []
     n = 0
+    read = _attrs_read(methods)
     for fi in methods:
         for sub in ast.walk(fi.node):
             site, attr, how = None, None, None
@@ -806,7 +840,10 @@ def det_sampler_state(repo, tier="quick"):
                 a = _self_attr(sub.func.value)
                 if a and a not in ("random", "rng"):
                     site, attr, how = sub, a, "modified in place (.%s)" % sub.func.attr
-            if site is not None:
+            if site is not None and attr not in read:
+                obs.append(ob_ok(oid, fi, site, construct="self.%s is %s in %s and never read while sampling" % (attr, how, fi.name), instance=fi.name + ":" + attr,
+                                 reason="a record that no later sample depends on"))
+            elif site is not None:
                 n += 1
                 obs.append(ob_fail(oid, fi, site, construct="self.%s is %s in %s" % (attr, how, fi.name), instance=fi.name + ":" + attr,
                                    reason="the sampler keeps something of the molecule it has just built: the next sample() of the same sampler starts from it"))
